@@ -118,36 +118,39 @@ type assocInfo struct {
 }
 
 type run struct {
-	w        *world
-	tr       *hx.Trace
-	rng      *rand.Rand
-	kr       *keyring
-	rec      *recorder
-	lconn    *net.UDPConn
-	cc       *countingConn
-	handled  int64
-	done     chan struct{}
-	clients  map[int]*sock
-	start    time.Time
-	mcur     int
-	assocs   map[int]*assocInfo
-	liveOf   map[int]int    // client token -> association id believed live
-	sockTok  map[string]int // NAT source address -> token (retired when its association is removed)
-	sockOwn  map[string]int
-	nSockTok int
-	saltTok  map[string]int
-	saltDup  int
-	nDg, nRp int
-	cliAddr  map[string]int
-	keyByID  map[string]int
-	pending  map[int][]byte // did -> payload sent
-	replies  map[int]replyInfo
-	promReg  *prometheus.Registry
-	notes    []string
+	w         *world
+	tr        *hx.Trace
+	rng       *rand.Rand
+	kr        *keyring
+	rec       *recorder
+	lconn     *net.UDPConn
+	cc        *countingConn
+	handled   int64
+	done      chan struct{}
+	clients   map[int]*sock
+	start     time.Time
+	mcur      int
+	assocs    map[int]*assocInfo
+	liveOf    map[int]int    // client token -> association id believed live
+	sockTok   map[string]int // NAT source address -> token (retired when its association is removed)
+	sockOwn   map[string]int
+	nSockTok  int
+	saltTok   map[string]int
+	saltDup   int
+	nDg, nRp  int
+	cliAddr   map[string]int
+	keyByID   map[string]int
+	pending   map[int][]byte // did -> payload sent
+	replies   map[int]replyInfo
+	promReg   *prometheus.Registry
+	notes     []string
+	floodEmit int64
 }
 
-func (r *run) ms(t time.Time) int     { return int(t.Sub(r.start) / time.Millisecond) }
-func (r *run) msCeil(t time.Time) int { return int(math.Ceil(float64(t.Sub(r.start)) / float64(time.Millisecond))) }
+func (r *run) ms(t time.Time) int { return int(t.Sub(r.start) / time.Millisecond) }
+func (r *run) msCeil(t time.Time) int {
+	return int(math.Ceil(float64(t.Sub(r.start)) / float64(time.Millisecond)))
+}
 
 func newRun(w *world, tr *hx.Trace, rng *rand.Rand, withProm bool) *run {
 	r := &run{w: w, tr: tr, rng: rng, clients: map[int]*sock{}, assocs: map[int]*assocInfo{}, liveOf: map[int]int{},
@@ -241,6 +244,10 @@ func badHeader(rng *rand.Rand, payload []byte) ([]byte, string) {
 }
 
 func (r *run) emitM(evs []mEvent, did, sid int) {
+	if len(evs) > 300 { // a flood: keep the trace small, the summary reports it
+		r.floodEmit += int64(len(evs) - 300)
+		evs = evs[:300]
+	}
 	for _, e := range evs {
 		c, ok := r.cliAddr[e.Client]
 		if !ok && e.M != "CS" {
